@@ -69,7 +69,7 @@ def tyNE : NE → Ty
   | .bin _ a b => (tyNE a).join (tyNE b)
   | .cmp _ _ _ => .bool
   | .neg a => tyNE a
-  | .not a => tyNE a
+  | .not _ => .bool
 
 /-- an inner chain that ends in numbers -/
 def ichainNumTy (ic : IChain) : Option Ty :=
